@@ -1276,7 +1276,14 @@ impl<C: Suite> Sim<C> {
                 match h.pk_by_inst.get(&inst) {
                     None => {
                         h.pk_by_inst.insert(inst, pk.clone());
-                        h.pk = Some(pk);
+                        h.pk = Some(pk.clone());
+                        // an enrolled participant announced its verifying share: the coordinator passes the extended package on
+                        if matches!(def, Inst::Repair { .. }) {
+                            let n = self.scen.n as usize;
+                            for p in 0..n {
+                                self.send(inst, Kind::PubKeys, hub, p, env.bytes.clone());
+                            }
+                        }
                     }
                     Some(first) => {
                         if *first != pk {
@@ -1385,7 +1392,9 @@ impl<C: Suite> Sim<C> {
             }
             Inst::Repair { target, .. } => {
                 part(*target).and_then(|s| s.repair.get(&inst)).map(|r| r.done).unwrap_or(false)
-                    && (*target < n || self.hub.as_ref().and_then(|h| h.pk_from.get(&inst)).map(|s| s.contains(target)).unwrap_or(false))
+                    && (*target < n
+                        || (self.hub.as_ref().and_then(|h| h.pk_from.get(&inst)).map(|s| s.contains(target)).unwrap_or(false)
+                            && (0..n).all(|p| part(p).map(|s| s.pk_inst == Some(inst)).unwrap_or(false))))
             }
         }
     }
